@@ -538,37 +538,46 @@ Definition near (am rm : option Q) (vt : Q * Q) : bool :=
   match am with Some a => Qle_bool diff a | None => true end
   && match rm with Some r => Qle_bool diff (Qabs (r * t)) | None => true end.
 
+(** What an element is compared by: a number (int, float, bool as 0/1: the float32 path
+    of assert_near) or a text (enum name, ISO date, string: the exact paths). *)
+Inductive cmp := CNum (q : Q) | CText (s : string).
+
+Definition is_numeric (ty : jtype) : bool :=
+  match ty with JInt | JFloat | JBool => true | _ => false end.
+
+Definition raw_cmp (ty : jtype) (r : raw) : option cmp :=
+  if is_numeric ty then option_map CNum (raw_Q r) else option_map CText (raw_text ty r).
+
+Definition leaf_cmp (ty : jtype) (l : leaf) : option cmp :=
+  if is_numeric ty then option_map CNum (leaf_Q l) else option_map CText (leaf_text l).
+
+Definition closeb (am rm : option Q) (p : cmp * cmp) : bool :=
+  match p with
+  | (CNum v, CNum t) => near am rm (v, t)
+  | (CText a, CText b) => String.eqb a b
+  | _ => false
+  end.
+
+(* no margin given at all: the absolute margin is 0 *)
+Definition effective_abs (am rm : option Q) : option Q :=
+  match am, rm with None, None => Some 0%Q | _, _ => am end.
+
+(* equal dates go on through the numeric comparison with a difference of 0 *)
+Definition date_margin_ok (ty : jtype) (am : option Q) : bool :=
+  match ty, am with JDate, Some a => Qle_bool 0 a | _, _ => true end.
+
 (** tools.assert_near(value, target, absolute, message, relative): Ok true when no
     assertion fails, Ok false for an AssertionError, Err for another exception.
     Expected dates are full ISO dates (or YAML dates), compared through their text. *)
 Definition assert_near (ty : jtype) (value : list raw) (target : list leaf) (am rm : option Q) : res bool :=
-  let am := match am, rm with None, None => Some 0%Q | _, _ => am end in
-  match ty with
-  | JEnum _ | JStr | JDate =>
-      match all_some (map (raw_text ty) value), all_some (map leaf_text target) with
-      | Some vs, Some ts =>
-          match bcast vs ts with
-          | Err e => Err e
-          | Ok pairs =>
-              let same := forallb (fun p => String.eqb (fst p) (snd p)) pairs in
-              match ty with
-              | JDate =>
-                  (* equal dates go on through the numeric comparison with a difference of 0 *)
-                  Ok (same && match am with Some a => Qle_bool 0 a | None => true end)
-              | _ => Ok same
-              end
-          end
-      | _, _ => Err EOther
+  let am := effective_abs am rm in
+  match all_some (map (raw_cmp ty) value), all_some (map (leaf_cmp ty) target) with
+  | Some vs, Some ts =>
+      match bcast vs ts with
+      | Err e => Err e
+      | Ok pairs => Ok (forallb (closeb am rm) pairs && date_margin_ok ty am)
       end
-  | JInt | JFloat | JBool =>
-      match all_some (map raw_Q value), all_some (map leaf_Q target) with
-      | Some vs, Some ts =>
-          match bcast vs ts with
-          | Err e => Err e
-          | Ok pairs => Ok (forallb (near am rm) pairs)
-          end
-      | _, _ => Err EOther
-      end
+  | _, _ => Err EOther
   end.
 
 Section Yaml.
